@@ -1,10 +1,14 @@
 #!/bin/bash
-# tools/seedrun.sh <patch.diff> <ID> [<ID>...]: apply a seeded change to /repo, run the quick checks, undo it.
+# tools/seedrun.sh <patch.diff> <ID> [<ID>...]: apply a seeded change to a scratch worktree of /repo's HEAD (never to /repo
+# itself, so other runs are not disturbed), run the quick checks against it through VERIF_REPO, remove the worktree.
 P="$1"; shift
-git -C /repo apply "$P" || { echo "patch does not apply"; exit 3; }
+WT=/tmp/wt/seedrun-$$
+mkdir -p /tmp/wt
+git -C /repo worktree add -q --detach "$WT" HEAD || exit 3
+trap 'git -C /repo worktree remove --force "$WT" 2>/dev/null' EXIT
+git -C "$WT" apply "$P" || { echo "patch does not apply"; exit 3; }
 for id in "$@"; do
-  out=$(/verif/check $id --tier quick --no-evidence 2>&1); rc=$?
+  out=$(VERIF_REPO="$WT" /verif/check $id --tier quick --no-evidence 2>&1); rc=$?
   echo "$id exit=$rc"; echo "$out" | grep -E "^(VIOLATION|KNOWN|FAULT)|clause=" | head -8 | sed 's/^/   /'
   [ $rc = 2 ] && echo "$out" | tail -15
 done
-git -C /repo checkout -- . ; git -C /repo status --short | head -3
